@@ -160,7 +160,8 @@ SStep(t) ==
   /\ IF task[t].pc = "s_run" THEN SFinish(t, "ok", pr) /\ UNCHANGED <<tr, env>>
      ELSE IF pr.closed THEN SFinish(t, "closed", pr) /\ UNCHANGED <<tr, env>>
      ELSE IF pr.exc THEN SFinish(t, "broken", pr) /\ UNCHANGED <<tr, env>>
-     ELSE IF tr.weof THEN SFinish(t, "error", pr) /\ UNCHANGED <<tr, env>>   \* write() after write_eof()
+     ELSE IF tr.weof                                   \* write() after write_eof() raises RuntimeError,
+     THEN SFinish(t, IF tr.closing THEN "broken" ELSE "error", pr) /\ UNCHANGED <<tr, env>>   \* mapped when closing
      ELSE IF tr.pend # "none" \/ tr.lost
      THEN \* connection_lost already scheduled: write() drops the data silently
           /\ UNCHANGED <<tr, env>>
